@@ -35,7 +35,7 @@ def main():
         checks = [own] + [c for c in EXTRA.get(sid, []) if c != own]
         det = []
         for c in checks:
-            r = sh(f'cd /verif && KV_REPO={WT} VERIF_SEED=0 timeout 900 ./run check {c} --tier quick')
+            r = sh(f'cd /verif && KV_OUT=/tmp/kvout/regress KV_REPO={WT} VERIF_SEED=0 timeout 900 ./run check {c} --tier quick')
             kinds = sorted(set(re.findall(r'^  kind=([a-z0-9-]+)', r.stdout, re.M)))
             nviol = len(re.findall(r'^VIOLATION', r.stdout, re.M))
             det.append({'check': c, 'tier': 'quick', 'result': (', '.join(kinds) + ' (VIOLATION)') if r.returncode == 1 and nviol else f'MISSED (rc={r.returncode})'})
@@ -44,7 +44,6 @@ def main():
         meta['detected_by'] = det
         json.dump(meta, open(f'{d}/meta.json', 'w'), indent=1)
     sh(f'git -C {WT} checkout -- .')
-    sh('git -C /verif checkout -- evidence')
     missed = [r for r in rows if 'MISSED' in r[2] or 'APPLY' in r[1]]
     print('\nMISSED:', missed)
 
